@@ -216,13 +216,42 @@ def known_case(ctx, _):
     compare(ctx, cfg, 1e4, a, b, bc, pg)
 
 
+def early_change(ctx, i, params=None):
+    """accuracy at EVERY scale includes change points that are tiny in the chosen unit of time: two lineages in one deme whose size
+    changes from N1 to N2 at t0 (Kingman): E[T] = N1 (1 - exp(-t0/N1)) + N2 exp(-t0/N1), and in the unit c every quantity scales"""
+    import math
+    pg = C.import_phasegen()
+    rng = random.Random(f'{ctx.seed}-c09-early-{i}')
+    P = params or dict(N1=rng.choice([1.0, 2.0]), N2=rng.choice([5.0, 0.25, 3.0]), t0=rng.choice([4e-8, 1e-7, 2.0 ** -20, 1e-3]),
+                       c=rng.choice([1e-3, 1e-2, 1.0, 1e3]), route=rng.choice(['dict', 'event']))
+    c = P['c']
+    with C.LogCapture() as lc:
+        if P['route'] == 'dict':
+            d = pg.Demography(pop_sizes={'pop_0': {0: c * P['N1'], c * P['t0']: c * P['N2']}})
+        else:
+            d = pg.Demography(events=[pg.PopSizeChange(pop='pop_0', time=0, size=c * P['N1']),
+                                      pg.PopSizeChange(pop='pop_0', time=c * P['t0'], size=c * P['N2'])])
+        got = float(pg.Coalescent(n=2, demography=d, parallelize=False, pbar=False).tree_height.mean)
+    want = c * (P['N1'] * (1 - math.exp(-P['t0'] / P['N1'])) + P['N2'] * math.exp(-P['t0'] / P['N1']))
+    ctx.case(dict(kind='early-change', params=P, expected=want, observed=got), repr(sorted(P.items())))
+    ctx.count(f'early-change:c={c}')
+    if lc.records:
+        ctx.skipped += 1; return
+    if not abs(got - want) <= 1e-9 * abs(want):
+        ctx.violation('rescale:early-change:th.mean', early_change_params=P, expected=want, observed=got, tolerance='1e-9 relative',
+                      oracle='closed form for two lineages; change point at c * t0 in the unit c')
+
+
 def run(ctx):
     import check
     check.pmap(ctx, 'props.c09', 'one', list(range(100 if ctx.quick else 400)), case_timeout=240 if ctx.quick else 1200)
     check.pmap(ctx, 'props.c09', 'known_case', [0], case_timeout=240)
+    check.pmap(ctx, 'props.c09', 'early_change', list(range(48 if ctx.quick else 300)), case_timeout=240)
 
 
 def replay(ctx, payload):
+    if 'early_change_params' in payload:
+        return early_change(ctx, 0, params=payload['early_change_params'])
     pg = C.import_phasegen()
     cfg = conv.cfg_from_json(payload['cfg'])
     c = payload.get('scale', 1.0)
